@@ -84,6 +84,8 @@ def run(ctx):
     octet_tables(ctx, P)
     builder_conversions_keep_settings(ctx, P)
     builder_setters_validate_before_mutating(ctx, P)
+    from rules import sig as _sig
+    _sig.salt_fed_at_every_hasher(ctx, P)
     c17.s17_1(ctx, P)
     c17.s17_3(ctx, P)
     c17.partial_emitters(ctx, P)
